@@ -16,6 +16,11 @@ for d in sorted(os.listdir("/verif/seeded")):
     if sel and not any(d.startswith(s) for s in sel):
         continue
     meta = json.load(open(sd + "/meta.json"))
+    if meta.get("superseded"):
+        print(d, "superseded (equivalent on the current tree)", flush=True)
+        rep[d] = {"status": "superseded", "why": meta["superseded"]}
+        json.dump(rep, open(rep_path, "w"), indent=1)
+        continue
     props = sorted(set(re.findall(r"\b(C\d\d)\b(?= (?:quick|/C\d\d quick))|\b(C\d\d)(?=/C\d\d quick)", " ".join(meta.get("caught_by", []))))) if False else []
     props = sorted(set(re.findall(r"\bC\d\d\b", " ".join(x.split(":")[0] for x in meta.get("caught_by", []))))) or [meta["property"]]
     wt = "/root/scratch/sa_wt_%d" % os.getpid(); ev = "/root/scratch/sa_ev_%d" % os.getpid()
